@@ -6,6 +6,7 @@ import (
 	"math"
 	"regexp"
 	"sync"
+	"sync/atomic"
 	"time"
 
 	"github.com/gethiox/HIDI/internal/pkg/fs"
@@ -363,7 +364,14 @@ func (d *Device) handleOpenrgb(ctx context.Context, wg *sync.WaitGroup) {
 	}
 
 	// a server that stops answering would keep this goroutine (and with it ProcessEvents) blocked in a read or write
-	// forever: once the device is gone it gets a moment to finish on its own (last frame), then the connection is closed
+	// forever: once the device is gone, a call to the server that has been going on for half a second is ended by closing
+	// the connection (a goroutine that is merely waiting its turn still gets to send the last frame)
+	var callStarted int64 // unix nanoseconds at which the call to the server that is in progress began, 0: none
+	serverCall := func(f func()) {
+		atomic.StoreInt64(&callStarted, time.Now().UnixNano())
+		f()
+		atomic.StoreInt64(&callStarted, 0)
+	}
 	finished := make(chan struct{})
 	defer close(finished)
 	defer c.Close()
@@ -373,10 +381,19 @@ func (d *Device) handleOpenrgb(ctx context.Context, wg *sync.WaitGroup) {
 			return
 		case <-ctx.Done():
 		}
-		select {
-		case <-finished:
-		case <-time.After(time.Millisecond * 500):
-			c.Close()
+		tick := time.NewTicker(time.Millisecond * 100)
+		defer tick.Stop()
+		for {
+			select {
+			case <-finished:
+				return
+			case <-tick.C:
+				started := atomic.LoadInt64(&callStarted)
+				if started != 0 && time.Since(time.Unix(0, started)) > time.Millisecond*500 {
+					c.Close()
+					return
+				}
+			}
 		}
 	}()
 
@@ -405,7 +422,7 @@ func (d *Device) handleOpenrgb(ctx context.Context, wg *sync.WaitGroup) {
 			break
 		}
 
-		dev, index, err = findController(c, events)
+		serverCall(func() { dev, index, err = findController(c, events) })
 		if err != nil {
 			continue
 		}
@@ -681,7 +698,10 @@ root:
 			}
 		}
 
-		err = c.UpdateLEDs(index, ledArray)
+		// the frame is complete: it is sent without the mutex, a server that is slow to take it must not hold up the keys
+		d.eventProcessMutex.Unlock()
+
+		serverCall(func() { err = c.UpdateLEDs(index, ledArray) })
 		if err != nil {
 			updateFails++
 			now := time.Now()
@@ -691,12 +711,11 @@ root:
 				nextFailedLedUpdateReport = now.Add(time.Second * 2)
 			}
 		}
-		d.eventProcessMutex.Unlock()
 	}
 
 	for i := range ledArray {
 		ledArray[i] = openrgb.Color{Red: 0xff}
 	}
-	c.UpdateLEDs(index, ledArray)
+	serverCall(func() { c.UpdateLEDs(index, ledArray) })
 	log.Info(fmt.Sprintf("[OpenRGB] device thread exited"), d.logFields(logger.Debug)...)
 }
